@@ -177,3 +177,167 @@ class AppRig:
 
     def now_ms(self):
         return int(self.loop.time() * 1000)
+
+
+# ---------------------------------------------------------------------------------------------------------------------
+# The RECEIVING direction of the real transports (added for C10; nothing above is changed).
+#
+#     with TransportRig('v2', via='stream') as rig:     # 'stream' | 'udp' | 'direct'
+#         rig.feed(wire, head=[1, 2], mss=1460)         # what the peer wrote arrives, cut into segments of these sizes
+#         rig.take_sent()                               # bytes the application wrote since the last call
+#
+# 'stream': the face is a real TcpFace / UnixFace whose `reader` is an asyncio.StreamReader of the virtual loop and whose
+#           `run()` (the library's own frame reader loop) is running as a task: bytes go in with reader.feed_data, the
+#           way a socket transport hands them over - in whatever segments the network cut them.
+# 'udp':    the face is a real UdpFace opened on a datagram endpoint that never touches a socket (the loop's
+#           create_datagram_endpoint is replaced); one packet = one call of the protocol's datagram_received.
+# 'direct': MemFace, one task per packet on face.callback (what AppRig.deliver does).
+def make_reader_stream_face(loop, unix=False):
+    from ndn.transport.stream_face import TcpFace, UnixFace
+
+    class _W:
+        def __init__(self):
+            self.sent = []
+
+        def write(self, d):
+            self.sent.append(bytes(d))
+
+        def writelines(self, ds):
+            for d in ds:
+                self.sent.append(bytes(d))
+
+        async def drain(self):
+            pass
+
+        def is_closing(self):
+            return False
+
+        def close(self):
+            pass
+
+        def get_extra_info(self, *a, **k):
+            return None
+
+    face = UnixFace() if unix else TcpFace()
+    face.reader = asyncio.StreamReader(loop=loop)
+    face.writer = _W()
+    face.sent = face.writer.sent
+    face.running = True
+    return face
+
+
+def make_datagram_udp_face(loop):
+    """a real UdpFace, to be opened with face.open_now() once the application owns it; face.handler is the library's protocol object (datagram_received), face.sent what it sent"""
+    from ndn.transport.udp_face import UdpFace
+    sent = []
+
+    class _T:
+        def sendto(self, d, addr=None):
+            sent.append(bytes(d))
+
+        def close(self):
+            pass
+
+        def is_closing(self):
+            return False
+
+        def get_extra_info(self, *a, **k):
+            return None
+
+        def abort(self):
+            pass
+
+    async def fake_endpoint(factory, *a, **k):
+        proto = factory()
+        tr = _T()
+        proto.connection_made(tr)
+        return tr, proto
+    face = UdpFace()
+    face.sent = sent
+
+    def open_now():
+        # as NDNApp.main_loop does: the face is opened AFTER the application took it (open() hands face.callback over)
+        old = loop.__dict__.get('create_datagram_endpoint')
+        loop.create_datagram_endpoint = fake_endpoint
+        try:
+            t = loop.run_now(face.open())
+            t.result()
+        finally:
+            if old is None:
+                del loop.create_datagram_endpoint
+            else:
+                loop.create_datagram_endpoint = old
+    face.open_now = open_now
+    return face
+
+
+class TransportRig(AppRig):
+    def __init__(self, front_end='v2', via='stream', t0=1000.0):
+        super().__init__(front_end, t0)
+        self.via = via
+
+    def __enter__(self):
+        utils, _, _ = _mods()
+        self.loop = vloop.new_loop()
+        self.loop._vt = self.t0
+        loop = self.loop
+
+        class _T:
+            time = staticmethod(lambda: loop.time())
+        self._utils = utils
+        self._old_time = utils.time
+        utils.time = _T
+        try:
+            if self.via in ('stream', 'unix'):
+                self.face = make_reader_stream_face(loop, unix=self.via == 'unix')
+            elif self.via == 'udp':
+                self.face = make_datagram_udp_face(loop)
+            else:
+                self.face = make_face_class()()
+            if self.front_end == 'v2':
+                from ndn import appv2
+                self.registerer = make_registerer_class()()
+                self.app = appv2.NDNApp(face=self.face, registerer=self.registerer)
+            else:
+                from ndn import app as appv1
+                from ndn.security import KeychainDigest
+                self.app = appv1.NDNApp(face=self.face, keychain=KeychainDigest())
+            self._taken = 0
+            self.run_task = None
+            if self.via in ('stream', 'unix'):
+                self.run_task = loop.create_task(self.face.run())
+                loop.settle()
+            elif self.via == 'udp':
+                self.face.open_now()
+        except BaseException:
+            self.__exit__()
+            raise
+        return self
+
+    def feed(self, wire, head=(), mss=0, settle_between=False):
+        """the peer wrote `wire`; on a stream it arrives cut into segments: first pieces of the sizes in `head`, then the
+        rest in pieces of `mss` bytes (0 = the rest in one piece); with settle_between the reader loop runs after every
+        segment, else only after the last. A datagram / direct delivery is always one piece."""
+        wire = bytes(wire)
+        if self.via in ('stream', 'unix'):
+            pos = 0
+            for n in list(head) + [0]:
+                while pos < len(wire):
+                    k = n if n > 0 else (mss if mss > 0 else len(wire))
+                    self.face.reader.feed_data(wire[pos:pos + k])
+                    pos += k
+                    if settle_between:
+                        self.loop.settle()
+                    if n > 0:
+                        break
+        elif self.via == 'udp':
+            self.loop.call_now(self.face.handler.datagram_received, wire, ('127.0.0.1', 6363))
+        else:
+            self.loop.create_task(self.face.callback(self._typ(wire), wire))
+        self.loop.settle()
+
+    def take_sent(self):
+        """the bytes written to the transport since the last call, one entry per write"""
+        out = self.face.sent[self._taken:]
+        self._taken = len(self.face.sent)
+        return [bytes(x) for x in out]
